@@ -2,6 +2,8 @@ package checks
 
 import (
 	"fmt"
+	"os"
+	"regexp"
 	"strings"
 
 	"verif.local/pvmon/internal/h"
@@ -104,6 +106,10 @@ func countPory(p *spec.Program, k *h.Case) int {
 
 func runC12(ctx *h.Ctx) int {
 	prof := profC12()
+	// environment variables named like the switch keys: they select nothing
+	for _, key := range prof.PoryKeys {
+		os.Setenv(key, "RUBY")
+	}
 	// (values are compared with case names exactly: "ruby", "Ruby " or "0X10" name no case)
 	vals := []string{"RUBY", "SAPPHIRE", "EMERALD", "1", "2", "OTHER", "-1", "0x10", "ruby", "Sapphire", "0X10", "01", "RUBY "}
 	ctx.RunCases("selection-pairs", ctx.N(6000, 300000), func(k *h.Case) {
@@ -128,6 +134,28 @@ func runC12(ctx *h.Ctx) int {
 			}
 			prog.Items = append(cs, prog.Items...)
 			k.Count("files_with_constants_named_like_cases", 1)
+		}
+		if k.R.IntN(12) == 0 {
+			// one key gets no -s value at all (the other one does), while the process environment has a variable of
+			// that name holding a case name: only -s selects, so a file that uses the key must be rejected
+			dropped := prof.PoryKeys[k.R.IntN(len(prof.PoryKeys))]
+			delete(prog.Switches, dropped)
+			src := spec.Source(prog)
+			k.SetSource(src)
+			res := h.Compile(src, optsOf(prog, k.R.IntN(2) == 0))
+			k.Count("evaluations", 1)
+			if res.Panic != nil {
+				k.Violation("panic", fmt.Sprintf("panic: %v", res.Panic), nil)
+				return
+			}
+			if regexp.MustCompile(`poryswitch\s*\(\s*` + dropped + `\b`).MatchString(src) {
+				if res.Err == nil {
+					k.Violation("key-without-value-accepted", fmt.Sprintf("poryswitch(%s) is used, no -s value was given for %s (the environment variable %s=%s exists), but the program compiled", dropped, dropped, dropped, os.Getenv(dropped)), map[string]interface{}{"output": res.Out, "switches": prog.Switches})
+					return
+				}
+				k.Count("keys_without_value_rejected", 1)
+			}
+			return
 		}
 		rp, rerr := spec.Resolve(prog, prog.Switches)
 		pr := layoutOf(k, prog, 0.15)
